@@ -57,12 +57,10 @@ impl TimeParser {
                     *value = serde_json::Value::Number(norm.into());
                     Ok(())
                 } else if let Some(f) = n.as_f64() {
-                    // Treat float as seconds.
-                    let secs = f.floor() as i64;
-                    // `as i64` saturates; accept only what chrono can represent (see format_timestamp)
-                    if Utc.timestamp_opt(secs, 0).single().is_none() {
-                        return Err(format!("Time value out of range: {n}"));
-                    }
+                    // Floor the fraction, then scale by magnitude like an integer epoch (s/ms/µs/ns);
+                    // beyond 19 digits no unit is left (`as i128` saturates)
+                    let secs = Self::normalize_integer_epoch(f.floor() as i128)
+                        .ok_or_else(|| format!("Time value out of range: {n}"))?;
                     *value = serde_json::Value::Number(secs.into());
                     Ok(())
                 } else {
